@@ -398,10 +398,18 @@ func c03Directed(c *harness.Ctx) {
 		{FNFTCreate + "-qty2", RoleCreate, func(s *Scn, B []byte) node.Call {
 			return gen.SelfCall(FNFTCreate, B, gen.BigGas, s.SFT, gen.Big(2), []byte("n"), gen.Big(1), []byte("h"), []byte("a"), []byte("u"))
 		}},
-		{FNFTAddQty, RoleAddQty, func(s *Scn, B []byte) node.Call { return gen.SelfCall(FNFTAddQty, B, gen.BigGas, s.SFT, gen.U64(1), gen.Big(3)) }},
-		{FNFTBurn, RoleNFTBurn, func(s *Scn, B []byte) node.Call { return gen.SelfCall(FNFTBurn, B, gen.BigGas, s.SFT, gen.U64(1), gen.Big(1)) }},
-		{FNFTAddURI, RoleAddURI, func(s *Scn, B []byte) node.Call { return gen.SelfCall(FNFTAddURI, B, gen.BigGas, s.SFT, gen.U64(1), []byte("uri-x")) }},
-		{FNFTUpdAttr, RoleUpdAttr, func(s *Scn, B []byte) node.Call { return gen.SelfCall(FNFTUpdAttr, B, gen.BigGas, s.SFT, gen.U64(1), []byte("attr-x")) }},
+		{FNFTAddQty, RoleAddQty, func(s *Scn, B []byte) node.Call {
+			return gen.SelfCall(FNFTAddQty, B, gen.BigGas, s.SFT, gen.U64(1), gen.Big(3))
+		}},
+		{FNFTBurn, RoleNFTBurn, func(s *Scn, B []byte) node.Call {
+			return gen.SelfCall(FNFTBurn, B, gen.BigGas, s.SFT, gen.U64(1), gen.Big(1))
+		}},
+		{FNFTAddURI, RoleAddURI, func(s *Scn, B []byte) node.Call {
+			return gen.SelfCall(FNFTAddURI, B, gen.BigGas, s.SFT, gen.U64(1), []byte("uri-x"))
+		}},
+		{FNFTUpdAttr, RoleUpdAttr, func(s *Scn, B []byte) node.Call {
+			return gen.SelfCall(FNFTUpdAttr, B, gen.BigGas, s.SFT, gen.U64(1), []byte("attr-x"))
+		}},
 	}
 	for _, S := range []uint32{1, 2} {
 		for subset := 0; subset < 128; subset++ {
@@ -547,15 +555,27 @@ func c04Directed(c *harness.Ctx) {
 		{FBurn, func(s *Scn) []byte { return s.F1 }, true, false, func(s *Scn, d []byte, a [][]byte) node.Call {
 			return node.Call{Func: FBurn, Caller: s.A, Recipient: gen.SysSC, Args: [][]byte{s.F1, gen.Big(3)}, Gas: gen.BigGas}
 		}},
-		{FLocalMint, func(s *Scn) []byte { return s.F1 }, true, false, func(s *Scn, d []byte, a [][]byte) node.Call { return gen.SelfCall(FLocalMint, s.A, gen.BigGas, s.F1, gen.Big(3)) }},
-		{FLocalBurn, func(s *Scn) []byte { return s.F1 }, true, false, func(s *Scn, d []byte, a [][]byte) node.Call { return gen.SelfCall(FLocalBurn, s.A, gen.BigGas, s.F1, gen.Big(3)) }},
+		{FLocalMint, func(s *Scn) []byte { return s.F1 }, true, false, func(s *Scn, d []byte, a [][]byte) node.Call {
+			return gen.SelfCall(FLocalMint, s.A, gen.BigGas, s.F1, gen.Big(3))
+		}},
+		{FLocalBurn, func(s *Scn) []byte { return s.F1 }, true, false, func(s *Scn, d []byte, a [][]byte) node.Call {
+			return gen.SelfCall(FLocalBurn, s.A, gen.BigGas, s.F1, gen.Big(3))
+		}},
 		{FNFTCreate, func(s *Scn) []byte { return s.SFT }, false, false, func(s *Scn, d []byte, a [][]byte) node.Call {
 			return gen.SelfCall(FNFTCreate, s.A, gen.BigGas, s.SFT, gen.Big(2), []byte("n"), gen.Big(1), []byte("h"), []byte("a"), []byte("u"))
 		}},
-		{FNFTAddQty, func(s *Scn) []byte { return s.SFT }, false, false, func(s *Scn, d []byte, a [][]byte) node.Call { return gen.SelfCall(FNFTAddQty, s.A, gen.BigGas, s.SFT, gen.U64(1), gen.Big(3)) }},
-		{FNFTBurn, func(s *Scn) []byte { return s.SFT }, false, false, func(s *Scn, d []byte, a [][]byte) node.Call { return gen.SelfCall(FNFTBurn, s.A, gen.BigGas, s.SFT, gen.U64(1), gen.Big(1)) }},
-		{FNFTAddURI, func(s *Scn) []byte { return s.SFT }, false, false, func(s *Scn, d []byte, a [][]byte) node.Call { return gen.SelfCall(FNFTAddURI, s.A, gen.BigGas, s.SFT, gen.U64(1), []byte("u2")) }},
-		{FNFTUpdAttr, func(s *Scn) []byte { return s.SFT }, false, false, func(s *Scn, d []byte, a [][]byte) node.Call { return gen.SelfCall(FNFTUpdAttr, s.A, gen.BigGas, s.SFT, gen.U64(1), []byte("at2")) }},
+		{FNFTAddQty, func(s *Scn) []byte { return s.SFT }, false, false, func(s *Scn, d []byte, a [][]byte) node.Call {
+			return gen.SelfCall(FNFTAddQty, s.A, gen.BigGas, s.SFT, gen.U64(1), gen.Big(3))
+		}},
+		{FNFTBurn, func(s *Scn) []byte { return s.SFT }, false, false, func(s *Scn, d []byte, a [][]byte) node.Call {
+			return gen.SelfCall(FNFTBurn, s.A, gen.BigGas, s.SFT, gen.U64(1), gen.Big(1))
+		}},
+		{FNFTAddURI, func(s *Scn) []byte { return s.SFT }, false, false, func(s *Scn, d []byte, a [][]byte) node.Call {
+			return gen.SelfCall(FNFTAddURI, s.A, gen.BigGas, s.SFT, gen.U64(1), []byte("u2"))
+		}},
+		{FNFTUpdAttr, func(s *Scn) []byte { return s.SFT }, false, false, func(s *Scn, d []byte, a [][]byte) node.Call {
+			return gen.SelfCall(FNFTUpdAttr, s.A, gen.BigGas, s.SFT, gen.U64(1), []byte("at2"))
+		}},
 	}
 	conds := []string{"actor-frozen", "dest-frozen", "paused-sender-shard", "paused-dest-shard", "none"}
 	cts := []vmcommon.CallType{vmcommon.DirectCall, vmcommon.AsynchronousCall, vmcommon.AsynchronousCallBack, vmcommon.ESDTTransferAndExecute}
